@@ -354,6 +354,44 @@ func c18OnDemand(t *testing.T, r *vmon.Run, rng *rand.Rand, hi int, max int) {
 	c18Teardown(r, e.snapshotEvents(), "on-demand")
 }
 
+// a reader session that is slow to tear down must not keep its slot: the path detaches readers itself
+func c18StuckTeardown(t *testing.T, r *vmon.Run, hi int) {
+	e := wbStart(t, "  p:\n    source: publisher\n    maxReaders: 1\n")
+	defer e.close()
+	p1 := e.newPub("P1")
+	if p1.add("p") != nil {
+		return
+	}
+	r1 := e.newReader("R1")
+	r1.noAuto = true
+	if r1.add("p", false) != nil {
+		return
+	}
+	p1.remove()
+	e.barrier()
+	r.Eval(fmt.Sprintf("stuck|%d", hi))
+	for name, pa := range e.livePaths() {
+		if len(pa.readers) != 0 {
+			r.Violation("reader-still-attached-after-stream-went-away", fmt.Sprintf("path %s: the publisher was removed and reader R1 was closed, but the path still holds %d reader(s) (the session has not called RemoveReader yet)", name, len(pa.readers)), nil)
+			return
+		}
+	}
+	if it, err := e.pm.APIPathsGet("p"); err == nil && len(it.Readers) != 0 {
+		r.Violation("api-lists-reader-of-unavailable-path", fmt.Sprintf("API lists %d reader(s) on a path without stream", len(it.Readers)), nil)
+		return
+	}
+	p2 := e.newPub("P2")
+	if p2.add("p") != nil {
+		return
+	}
+	r2 := e.newReader("R2")
+	if err := r2.add("p", false); err != nil {
+		r.Violation("slot-kept-by-closed-reader", fmt.Sprintf("maxReaders=1: new reader refused (%v) although the only previous reader was closed when the stream went away", err), nil)
+	}
+	r1.detach()
+	p2.remove()
+}
+
 func TestVerifC18(t *testing.T) {
 	r := vmon.Begin(t, "C18", "exploration")
 	rng := r.Rand("c18")
@@ -371,7 +409,9 @@ func TestVerifC18(t *testing.T) {
 	n := r.N(60, 2500)
 	maxes := []int{0, 1, 2, 5}
 	for hi := 0; hi < n; hi++ {
-		if hi%4 == 3 {
+		if hi%10 == 9 {
+			c18StuckTeardown(t, r, hi)
+		} else if hi%4 == 3 {
 			c18OnDemand(t, r, rng, hi, maxes[rng.IntN(4)])
 		} else {
 			c18Churn(t, r, rng, hi, maxes[rng.IntN(4)])
@@ -380,6 +420,6 @@ func TestVerifC18(t *testing.T) {
 			break
 		}
 	}
-	r.Finish("real pathManager/path with stub sessions, maxReaders in {0,1,2,5}. Churn: 2..5 reader clients add (sometimes twice) / remove while one publisher client adds and removes the publisher; porcupine linearizability against a counting-set model (size <= max, idempotent re-add, 'maximum reader count reached' on overflow, 'no stream' without publisher, all readers detached when the stream goes away); event-log check that every reader attached when the publisher was removed was closed exactly once before RemovePublisher returned; white-box reader count at quiescence. On-demand: 2..7 readers held while the runOnDemand publisher starts, then the publisher arrives: exactly min(n, max) are admitted. non-trivial = distinct history",
+	r.Finish("real pathManager/path with stub sessions, maxReaders in {0,1,2,5}. Churn: 2..5 reader clients add (sometimes twice) / remove while one publisher client adds and removes the publisher; porcupine linearizability against a counting-set model (size <= max, idempotent re-add, 'maximum reader count reached' on overflow, 'no stream' without publisher, all readers detached when the stream goes away); event-log check that every reader attached when the publisher was removed was closed exactly once before RemovePublisher returned; white-box reader count at quiescence. On-demand: 2..7 readers held while the runOnDemand publisher starts, then the publisher arrives: exactly min(n, max) are admitted. Stuck teardown: a closed reader whose session has not yet called RemoveReader must already be detached (white-box, API, and its maxReaders slot is free). non-trivial = distinct history",
 		"one publisher client per history keeps the availability part of the model a single register")
 }
